@@ -143,9 +143,10 @@ pub fn run(
                     }
                 }
             }
-            if let Some((ref best_path, _)) = best_candidate {
-                accepted.push(best_path.clone());
-            }
+        }
+        // the best candidate over all spur indices becomes the next accepted route
+        if let Some((ref best_path, _)) = best_candidate {
+            accepted.push(best_path.clone());
         }
         if accepted.len() == n_accepted {
             // no spur of the latest route produced an alternative: nothing left to build on
